@@ -12,6 +12,7 @@ import (
 	"hash"
 	"io"
 	"sort"
+	"strings"
 
 	"mellium.im/xmlstream"
 	"mellium.im/xmpp"
@@ -123,6 +124,10 @@ func (i Info) AppendHash(dst []byte, h hash.Hash) []byte {
 	}
 
 	// Hash forms
+	// Each form is serialized on its own first so that the forms can be hashed
+	// sorted by FORM_TYPE (and then by their remaining fields, so that the order
+	// of forms that have no or the same FORM_TYPE does not matter either).
+	forms := make([][2]string, 0, len(i.Form))
 	for _, infoForm := range i.Form {
 		var formType string
 		fields := make([]string, 0, infoForm.Len())
@@ -134,24 +139,32 @@ func (i Info) AppendHash(dst []byte, h hash.Hash) []byte {
 			fields = append(fields, f.Var)
 		})
 		sort.Strings(fields)
-		/* #nosec */
-		io.WriteString(h, formType)
-		/* #nosec */
-		io.WriteString(h, "<")
+		var formFields strings.Builder
 		for _, f := range fields {
-			/* #nosec */
-			io.WriteString(h, f)
-			/* #nosec */
-			io.WriteString(h, "<")
+			formFields.WriteString(f)
+			formFields.WriteString("<")
 			vals, _ := infoForm.Raw(f)
 			sort.Strings(vals)
 			for _, val := range vals {
-				/* #nosec */
-				io.WriteString(h, val)
-				/* #nosec */
-				io.WriteString(h, "<")
+				formFields.WriteString(val)
+				formFields.WriteString("<")
 			}
 		}
+		forms = append(forms, [2]string{formType, formFields.String()})
+	}
+	sort.Slice(forms, func(a, b int) bool {
+		if forms[a][0] != forms[b][0] {
+			return forms[a][0] < forms[b][0]
+		}
+		return forms[a][1] < forms[b][1]
+	})
+	for _, f := range forms {
+		/* #nosec */
+		io.WriteString(h, f[0])
+		/* #nosec */
+		io.WriteString(h, "<")
+		/* #nosec */
+		io.WriteString(h, f[1])
 	}
 
 	dst = h.Sum(dst)
